@@ -103,6 +103,9 @@ def run(rep, tier, driver):
         if o["g"][0] != want or o["g"][1] != rings:
             rep.violation("input", {"iupac": g, "parent": pname, "child": child}, {"atoms": o["g"][0], "rings": o["g"][1], "smiles": o["g"][2]},
                           {"atoms": want, "rings": rings, "residues": 2}, key="balance:" + g)
+    # linkages through substituents exercise __check_root_id's walk to the free end: Model against code
+    import oxyx
+    oxyx.run(rep, tier, driver, [g for (g, _, _), o in zip(tj, touts) if o["g"] is not None])
     # tie of the Lean tree theorems (C05_tree_atoms, C05_tree_rings) to the code: the whole-tree certificate on the strings observed
     # inside the real merge_int of these glycans
     import mergex
